@@ -21,6 +21,9 @@ enum Op {
     U64,
     Fill(usize),
     CloneU64,
+    /// (deterministic generators) clone, move the clone to a freshly spawned thread, draw there
+    /// while the owner keeps drawing, join: both streams go into the digest
+    CloneToThread,
 }
 
 #[derive(Clone, Debug)]
@@ -41,7 +44,7 @@ struct Inst {
     ops: Vec<Op>,
 }
 
-fn run_ops<R: RngCore + Clone>(mut g: R, ops: &[Op]) -> u64 {
+fn run_ops<R: RngCore + Clone + Send + 'static>(mut g: R, ops: &[Op]) -> u64 {
     let mut d = Digest::default();
     for op in ops {
         match op {
@@ -55,6 +58,23 @@ fn run_ops<R: RngCore + Clone>(mut g: R, ops: &[Op]) -> u64 {
             Op::CloneU64 => {
                 let mut c = g.clone();
                 d.u64(c.next_u64());
+            }
+            Op::CloneToThread => {
+                let mut c = g.clone();
+                let h = std::thread::spawn(move || {
+                    let mut v = [0u64; 3];
+                    for x in v.iter_mut() {
+                        *x = c.next_u64();
+                    }
+                    v
+                });
+                let own = (g.next_u32(), g.next_u64());
+                let other = h.join().expect("helper thread");
+                d.u64(own.0 as u64);
+                d.u64(own.1);
+                for x in other {
+                    d.u64(x);
+                }
             }
         }
     }
@@ -91,10 +111,13 @@ fn run_inst(inst: &Inst) -> u64 {
 
 fn gen_ops(rng: &mut Prng, max: u64, small: bool) -> Vec<Op> {
     (0..rng.range(1, max))
-        .map(|_| match rng.below(6) {
+        .map(|_| match rng.below(7) {
             0 | 1 => Op::U32,
             2 => Op::U64,
             3 => Op::CloneU64,
+            // JitterRng clones share their (real-world) timer with the original by design, so
+            // concurrent use of original and clone is only meaningful for the deterministic types
+            6 if !small => Op::CloneToThread,
             _ => Op::Fill(if small { rng.range(0, 9) as usize } else { rng.range(0, 70) as usize }),
         })
         .collect()
